@@ -244,7 +244,7 @@ CLAIMS = {
              "coefficient arrays occur only under the intercept flag; offset subscripts of "
              "pointer arrays (indptr[j+1], grp_ptr[g+1]) are within the loop bound. "
              "Value-dependent indices (contents of user arrays) are an input contract."
-             " Across calls: a kernel that indexes a parameter by coordinates is never handed an array restricted to the working set; initialize / initialize_sparse is control-dependent on the storage dispatch only, so lazy attributes of earlier data are never read.",
+             " Every solver kernel, fixed-point score and CSC helper is lifted on small concrete shapes (3x3 design with structural zeros / an empty column, non-contiguous groups, permuted working sets) where every subscript is bounds-checked by the lifter: an out-of-range index on those shapes is a violation. Across calls: a kernel that indexes a parameter by coordinates is never handed an array restricted to the working set; initialize / initialize_sparse is control-dependent on the storage dispatch only, so lazy attributes of earlier data are never read.",
         design_ref="DESIGN.md §2 L4, §3.4 R-IDX/R-SLICE, §4 C20",
         note="Extents are symbols with +/-1 offsets; G <= P is never assumed.",
         technique="index-domain inference + linear offset comparison of loop bounds and "
